@@ -238,6 +238,52 @@ pub(crate) mod verif_probe {
                 let vv = v.clone();
                 Some(rt.block_on(async move { login(vv).await }))
             }
+            "show_servers" => {
+                // server connections registered in the real registry with given states and counters; SHOW SERVERS through the real handle_admin
+                let rt = tokio::runtime::Builder::new_multi_thread().worker_threads(2).enable_all().build().unwrap();
+                let v = v.clone();
+                Some(rt.block_on(async move {
+                    use std::sync::atomic::Ordering::Relaxed;
+                    let mut regs = vec![];
+                    let mut ids = std::collections::HashMap::new();
+                    for c in v["servers"].as_array().unwrap() {
+                        let address = crate::config::Address { pool_name: c["pool"].as_str().unwrap().to_string(), username: c["user"].as_str().unwrap().to_string(),
+                                                               role: crate::config::Role::Replica, ..crate::config::Address::default() };
+                        let s = Arc::new(crate::stats::ServerStats::new(address, tokio::time::Instant::now()));
+                        s.register(s.clone());
+                        match c["state"].as_str().unwrap() { "active" => s.active(c["app"].as_str().unwrap().to_string()), "tested" => s.tested(), "idle" => s.idle(), _ => s.login() }
+                        *s.application_name.write() = c["app"].as_str().unwrap().to_string();
+                        let b = c["base"].as_u64().unwrap();
+                        s.transaction_count.store(b, Relaxed); s.query_count.store(b + 1, Relaxed); s.bytes_sent.store(b + 2, Relaxed); s.bytes_received.store(b + 3, Relaxed);
+                        s.prepared_hit_count.store(b + 4, Relaxed); s.prepared_miss_count.store(b + 5, Relaxed); s.prepared_eviction_count.store(b + 6, Relaxed); s.prepared_cache_size.store(b + 7, Relaxed);
+                        ids.insert(format!("{:#010X}", s.server_id()), format!("{:#010X}", c["sid"].as_i64().unwrap() as i32));
+                        regs.push(s);
+                    }
+                    let map: ClientServerMap = Arc::new(parking_lot::Mutex::new(HashMap::new()));
+                    let mut out: Vec<u8> = vec![];
+                    let r = crate::admin::handle_admin(&mut out, crate::messages::simple_query("SHOW SERVERS"), map).await;
+                    for s in regs.iter() { s.disconnect(); }
+                    if r.is_err() { return json!({"error": format!("handle_admin: {:?}", r)}); }
+                    let mut rows = vec![]; let mut i = 0usize;
+                    while i + 5 <= out.len() {
+                        let ln = i32::from_be_bytes([out[i + 1], out[i + 2], out[i + 3], out[i + 4]]) as usize;
+                        if out[i] == b'D' {
+                            let body = &out[i + 5..i + 1 + ln];
+                            let n = u16::from_be_bytes([body[0], body[1]]) as usize; let mut j = 2; let mut cols = vec![];
+                            for _ in 0..n { let l = i32::from_be_bytes([body[j], body[j + 1], body[j + 2], body[j + 3]]) as usize; j += 4;
+                                            cols.push(String::from_utf8_lossy(&body[j..j + l]).to_string()); j += l; }
+                            // the server id is random: rows of OUR connections are renamed to the ids the check uses; columns as the check compares them
+                            if let Some(alias) = ids.get(&cols[0]) {
+                                let mut keep = vec![alias.clone()];
+                                keep.extend_from_slice(&cols[1..3]); keep.extend_from_slice(&cols[4..10]); keep.extend_from_slice(&cols[11..15]);
+                                rows.push(keep);
+                            }
+                        }
+                        i += 1 + ln;
+                    }
+                    json!({"rows": rows, "want": v["want"]})
+                }))
+            }
             "show_clients" => {
                 // clients registered in the real registry with given states and counters; SHOW CLIENTS through the real handle_admin
                 let rt = tokio::runtime::Builder::new_multi_thread().worker_threads(2).enable_all().build().unwrap();
